@@ -1,4 +1,9 @@
-/-! Cp: executable models (no Mathlib imports). -/
-namespace Solvor.Cp
-
-end Solvor.Cp
+import Solvor.Cp.Syntax
+import Solvor.Cp.Sem
+import Solvor.Cp.Dpll
+import Solvor.Cp.Encode
+import Solvor.Cp.Prop
+/-! Cp: executable models (no Mathlib imports).
+`Syntax` (models as the operators build them), `Sem` (spec `Holds`, verified evaluator `check`,
+exhaustive enumerator `solutions`), `Dpll` (CNF semantics, reference DPLL, projected enumerator),
+`Encode` (mirror of `SATEncoder`), `Prop` (mirror of the DFS solver). -/
